@@ -24,6 +24,8 @@ Sensitivity (quick tier, scratch copies; all caught):
   serving loop hanging after an application exception (_QuietException) ; _on_connection_close not resolving _finish_future.
   Seeded: need_delegate_close cleared when the request is fully read although finish() was skipped (delegate answered
   early) -> caught after adding delegates that respond in headers_received/data_received (neither_finish_nor_close).
+  Seeded (round 9): set_body_timeout() writing the server-wide parameters object (one request's override outlives it)
+     -> missed until an earlier complete request with its own override preceded the stalled one (body_timeout_did_not_end_the_request).
   Seeded (round 7): httpserver._ProxyAdapter.on_connection_close calling delegate.finish() -> missed until xheaders=True
   became a generated server option (both_finish_and_close / finish_with_incomplete_body).
   Seeded (round 6): the `not self.stream.closed()` guard before `await self._finish_future` narrowed to the client role ->
@@ -88,7 +90,10 @@ def case_s(draw):
     # non-default server configuration: xheaders=True wraps every request delegate in the proxy adapter, which has to
     # forward finish / on_connection_close faithfully
     xheaders = draw(st.booleans())
-    return dict(xheaders=xheaders, raise_in=raise_in, reject=reject, timeout_via=timeout_via, framing=framing, body=body, chunks=chunks, layer=layer, hdr_async=hdr_async, data_async=data_async,
+    # an earlier, complete request on the same connection whose delegate installs its own (long) body timeout and is
+    # answered at once: per-request settings must not outlive their request
+    lead = draw(st.sampled_from([None, None, None, "override_timeout", "plain"]))
+    return dict(lead=lead, xheaders=xheaders, raise_in=raise_in, reject=reject, timeout_via=timeout_via, framing=framing, body=body, chunks=chunks, layer=layer, hdr_async=hdr_async, data_async=data_async,
                 respond=respond, where=where, frac=frac, event=event, segs=segs, write_credit=write_credit,
                 resp_size=resp_size, chunk_size=chunk_size, cut=None)
 
@@ -205,6 +210,25 @@ def run_scenario(case):
         def on_connection_close(self):
             pass
 
+    class LeadMsg(httputil.HTTPMessageDelegate):
+        def __init__(self, conn):
+            self.conn = conn
+
+        def headers_received(self, start_line, headers):
+            if case.get("lead") == "override_timeout":
+                self.conn.set_body_timeout(3600.0)
+
+        def data_received(self, chunk):
+            pass
+
+        def finish(self):
+            self.conn.write_headers(httputil.ResponseStartLine("HTTP/1.1", 200, "OK"),
+                                    httputil.HTTPHeaders({"Content-Length": "0"}))
+            self.conn.finish()
+
+        def on_connection_close(self):
+            pass
+
     def respond(conn):
         body = b"r" * case["resp_size"]
         try:
@@ -251,6 +275,7 @@ def run_scenario(case):
             self.write(b"r" * case["resp_size"])
 
     layer = case["layer"]
+    use_lead = bool(case.get("lead")) and layer == "raw"
     app = None
     if layer != "raw":
         cls = {"web_sync": WebSync, "web_async": WebAsync, "web_stream": WebStream}[layer]
@@ -259,6 +284,10 @@ def run_scenario(case):
     class Conn(httputil.HTTPServerConnectionDelegate):
         def start_request(self, server_conn, request_conn):
             rec = {"headers": 0, "chunks": [], "finish": 0, "close": 0, "order": []}
+            if use_lead and not st_.get("lead_started"):
+                st_["lead_started"] = True
+                st_["lead_record"] = rec
+                return Recorder(LeadMsg(request_conn), rec)
             st_["records"].append(rec)
             inner = RawMsg(request_conn) if app is None else app.start_request(server_conn, request_conn)
             return Recorder(inner, rec)
@@ -286,6 +315,8 @@ def run_scenario(case):
         if case.get("reject") == "body_over_limit" and case["body"]:
             kw["max_body_size"] = max(0, len(case["body"]) - 1 - (case["frac"] % 3))
         sess = ServerSession(Conn(), **kw)
+        if use_lead:
+            await sess.send(b"GET /lead HTTP/1.1\r\nHost: h\r\n\r\n")
         if case["write_credit"] is not None:
             sess.stream.write_credit = case["write_credit"]
         await sess.send(data[:cut], case["segs"])
@@ -345,6 +376,11 @@ def run_case(ctx, case):
             "write_credit": case["write_credit"],
             "records": [(r["headers"], len(b"".join(r["chunks"])), r["finish"], r["close"], r["order"]) for r in st_["records"]]}
     labels = {"layer:" + case["layer"], "event:" + case["event"]}
+    lead_rec = st_.get("lead_record")
+    if lead_rec is not None:
+        labels.add("lead_request:" + str(case.get("lead")))
+        if (lead_rec["headers"], lead_rec["finish"], lead_rec["close"]) != (1, 1, 0) or b"".join(lead_rec["chunks"]) != b"":
+            ctx.fail("C05.lead_request_not_finished_once", dict(info, lead=(lead_rec["headers"], lead_rec["finish"], lead_rec["close"])))
     if case.get("xheaders"):
         labels.add("xheaders_proxy_adapter")
     started = [r for r in st_["records"] if r["headers"]]
@@ -454,6 +490,12 @@ def offsets_cases(n_requests):
                     # server shut down while the delegate is still busy and the application never answers
                     for cut in range(len(head), len(head) + len(payload) + 1):
                         yield dict(base, respond="never", cut=cut, event="shutdown")
+                if layer == "raw" and hold == "sync" and not xh and payload:
+                    # a stalled body behind an earlier request that installed its own long body timeout (and behind a
+                    # plain one): the server's body_timeout must still end the stalled request
+                    for lead in ("override_timeout", "plain"):
+                        for cut in sorted({len(head), len(head) + 1, len(head) + len(payload) // 2, len(head) + len(payload) - 1}):
+                            yield dict(base, lead=lead, event="timeout", timeout_via="server", cut=cut)
                 if layer == "raw":
                     # the application answers before the request is fully read; every offset, no fault and FIN
                     for early in ("in_headers", "in_data"):
